@@ -17,14 +17,17 @@ CHECKS = {
              'critical section by the thread\'s own seek, locks properly taken and released - then the invariant (lock ownership, '
              '"my pending position is the object\'s position") is preserved by every step, and every position-dependent call '
              'observes the position its own thread set: reads return the bytes at their own offset, writes land at their own '
-             'offset, under every interleaving.  The programs are extracted on every run from the real code (class-level '
+             'offset, under every interleaving; and (no deadlock) if moreover every program takes its locks in the order of one '
+             'ranking and ends with nothing held, then after any schedule either all threads have finished or some thread can '
+             'step.  The programs are extracted on every run from the real code (class-level '
              'instrumentation of Lock/RLock and of the read/write/seek/tell methods of the file classes) for every pair and '
-             'some triples of handle kinds of every reader; the Lean model evaluates the discipline on them; where it fails, '
+             'some triples of handle kinds of every reader, with other handles opened/closed/dropped in between; a lock ranking is '
+             'computed from the nestings seen; the Lean model evaluates discipline and ordered acquisition on them; where they fail, '
              'candidate schedules are replayed on the real code with a deterministic scheduler and a read that returns bytes '
-             'no serial run returns is the violation.',
+             'no serial run returns (or a replay that hangs) is the violation.',
         note=COMMON_NOTE + 'one call on a shared object is atomic (GIL; C-level BytesIO calls); the traces come from single-threaded runs '
              'of the concrete operations, so input-dependent lock paths are covered only as far as the generated operations '
-             'reach them; deadlock freedom is not a theorem (replayed schedules that hang are reported).',
+             'reach them; locks are modelled as non-reentrant (re-entrant acquisitions of an RLock are folded into the outermost one).',
         technique='Lean 4 proof (invariant over all schedules of an event model) + traces extracted from the implementation + '
                   'deterministic schedule replay',
         design='§4 C15'),
